@@ -312,7 +312,7 @@ impl Oracle for C10 {
 }
 
 fn history_starts() -> Vec<Start> {
-    let s = |name: &str, forest: Vec<A>| Start { name: name.into(), forest, adjacent_text: false, consolidation: true };
+    let s = |name: &str, forest: Vec<A>| Start { name: name.into(), forest, adjacent_text: false, consolidation: true , parse: vec![]};
     vec![
         s("plain", vec![A::doc(vec![A::el("", "r").child(A::el("", "a"))])]),
         s("declared-x", vec![A::doc(vec![A::el(X, "r").decl("p", X).child(A::el(X, "a").attr(X, "k", "1"))]), A::el("", "u")]),
